@@ -155,6 +155,29 @@ Definition dial_config (h : heap) (ssl : option sslopts) (f : fsenv) (addr : lis
       end
   end.
 
+(* control.go hostInfo + session.go addrsToHosts: a contact point (host part [host], port [port]) becomes
+   HostInfo values.  [literal] = Some ip when net.ParseIP(host) succeeds (the text of that address); otherwise
+   [ips] is what LookupIP(host) returned, each with its text and whether To4() != nil, and [prefer_v4] is the
+   package variable hostLookupPreferV4 (GOCQL_HOST_LOOKUP_PREFER_V4=true). *)
+Record hostinfo := mkHost { hi_hostname : list Z; hi_addr : list Z; hi_port : list Z }.
+
+Definition resolve_contact (host port : list Z) (literal : option (list Z)) (ips : list (list Z * bool))
+                           (prefer_v4 : bool) : list hostinfo :=
+  match literal with
+  | Some ip => [mkHost host ip port]
+  | None =>
+      let ips' := if prefer_v4
+                  then match filter snd ips with [] => ips | pref => pref end   (* if len(preferredIPs) != 0 *)
+                  else ips in
+      map (fun ip => mkHost host (fst ip) port) ips'
+  end.
+
+(* host_source.go HostnameAndPort: if h.hostname == "" { h.hostname = addr.String() }; net.JoinHostPort *)
+Definition go_join_host_port (host port : list Z) : list Z :=
+  (if existsb (Z.eqb 58) host then [91] ++ host ++ [93] else host) ++ [58] ++ port.
+Definition hostname_and_port (hi : hostinfo) : list Z :=
+  go_join_host_port (if is_nil (hi_hostname hi) then hi_addr hi else hi_hostname hi) (hi_port hi).
+
 Definition verifies (h : heap) (a : nat) : bool := negb (c_insecure (get_cfg h a)).
 
 (* crypto/tls + crypto/x509 as used here (MODELLED, the standard library is trusted): a server presents a
